@@ -1,12 +1,12 @@
 \* tunnox-core as found, strict invariants: TLC exhibits the unauthorised attachment
 \* (AttachedEntitled violated: S opens, an unentitled R joins through ExistingBridge).
-\* Must fail; the check runs it only to confirm that it does (drivers/c04 PostDrive):
+\* Must fail; the check confirms that it does through TunnelOpen_show_all.cfg (cell.mut = "asFound"):
 \*   tlc -config TunnelOpen_show_asis.cfg TunnelOpen.tla
 CONSTANTS
   FIXES = {}
   Idents = {"none", "noneHs", "listen", "target", "stranger"}
   Creds = {"idOnly", "rightSecret", "wrongSecret", "resume", "nothing", "otherId", "otherSecret"}
-  MStates = {"active", "revoked", "expired", "expiredJust", "inactive", "error", "suspended", "missing"}
+  MStates = {"active", "revoked", "expired", "expiredJust", "lapsed", "inactive", "error", "suspended", "missing"}
   Shapes = {"std", "noListen", "noTarget"}
   MUT = {}
   TStates = {"none", "waiting", "served", "remote", "lateLocal", "lateRemote"}
